@@ -26,6 +26,9 @@ def shards(tier, seed):
     out.append({"id": "sense", "fmt": None, "n": 3000 if tier == "quick" else 100000, "small": tier == "quick"})
     out.append({"id": "readcd-params", "fmt": "readcd", "n": 0, "small": tier == "quick"})
     out.append({"id": "scaling", "fmt": None, "n": 0, "small": tier == "quick"})
+    for part in range(4):
+        out.append({"id": "vpd-any-%d" % part, "fmt": None, "vpd_any": True, "part": part, "parts": 4, "small": tier == "quick"})
+    out.append({"id": "retention", "fmt": None, "retention": True, "n": 300 if tier == "quick" else 3000, "small": tier == "quick"})
     return out
 
 
@@ -125,6 +128,10 @@ def run(shard, ctx):
             return run_sense(shard, ctx, sm, rng)
         if shard["id"] == "scaling":
             return run_scaling(shard, ctx, sm, rng)
+        if shard.get("vpd_any"):
+            return run_vpd_any(shard, ctx, sm, rng)
+        if shard.get("retention"):
+            return run_retention(shard, ctx, rng)
         f = D.FORMATS[shard["fmt"]]
         cls = f.lib_cls()
         if shard["id"] == "readcd-params":
@@ -209,6 +216,117 @@ def run_scaling(shard, ctx, sm, rng):
                      {"decoder": name, "bytes": [l1, l2], "steps": [s1, s2]})
 
 
+def naa_designator(i):
+    return bytes([0x01, 0x03, 0x00, 0x08, 0x50 | (i >> 28 & 0xF)]) + bytes([(i >> s) & 0xFF for s in (20, 12, 4)]) + bytes([(i << 4) & 0xF0, 0xAA, 0xBB, i & 0xFF])
+
+
+def vpd_structures(page, n):
+    """well-formed VPD pages with n (distinct) descriptors in the list shapes SPC-4 uses, for an arbitrary page code"""
+    from vmon.refcodec import be
+
+    def page_of(body):
+        body = body[:65532]
+        return bytes([0x00, page]) + bytes(be(len(body), 2)) + body
+
+    # SCSI Ports (88h) shape: port descriptors, each with a relative port, an (empty) initiator TransportID and target port designators
+    ports = b"".join(bytes(2) + bytes(be(i + 1 & 0xFFFF or 1, 2)) + bytes(2) + bytes(2) + bytes(2) + bytes(be(12, 2)) + naa_designator(i) for i in range(n))
+    yield "scsi_ports_shape", page_of(ports)
+    # Device Identification (83h) shape: designation descriptors
+    yield "designator_list_shape", page_of(b"".join(naa_designator(i) for i in range(n)))
+    # Management Network Addresses (85h) / Mode Page Policy (87h) shape: 4-byte headers with a 2-byte length
+    yield "length_prefixed_shape", page_of(b"".join(bytes([0x20 | (i & 3), 0]) + bytes(be(8, 2)) + b"http://%1d" % (i % 10) for i in range(n)))
+    # fixed 4-byte entries (Mode Page Policy)
+    yield "fixed_entries_shape", page_of(b"".join(bytes([i & 0x3F, 0xFF, 0x80 | (i & 3), 0]) for i in range(n)))
+
+
+def run_vpd_any(shard, ctx, sm, rng):
+    """every VPD page code, also the ones the library does not (yet) decode field by field: structurally valid pages in the list
+    shapes of SPC-4 under the step budget, and twice with 16x the descriptors for proportionality"""
+    from pyscsi.pyscsi.scsi_cdb_inquiry import Inquiry
+
+    n1, n2 = (40, 640) if shard["small"] else (100, 2500)
+    for page in range(256):
+        if page % shard["parts"] != shard["part"]:
+            continue
+        sizes = {}
+        for n in (n1, n2):
+            for shape, m in vpd_structures(page, n):
+                ctx.case(("vpd-any", page, shape, n), True, sample={"decoder": "inquiry.vpd%02x" % page, "shape": shape, "descriptors": n, "bytes": len(m)} if ctx.want_sample() else None)
+                name = "inquiry.vpd_any"
+                out, steps = sm.run(lambda m=m: Inquiry.unmarshall_datain(bytearray(m), evpd=1), BASE + SLOPE * len(m), opaque_cpu=0.5 + 20e-6 * len(m))
+                ctx.count("monitored_calls")
+                ctx.count("outcome_" + out.split(":")[0])
+                ctx.add("vpd_pages_driven", "%02x" % page)
+                wit = {"decoder": "inquiry.vpd%02x" % page, "kwargs": {"evpd": 1}, "shape": shape, "buffer": m if len(m) < 4000 else m[:4000], "buffer_len": len(m)}
+                if out in ("budget", "opaque"):
+                    ctx.fail("C11:inquiry.vpd%02x.nonterminating.%s" % (page, shape), "VPD page %02Xh (%s, %d descriptors, %d bytes) did not finish within its budget" % (page, shape, n, len(m)), wit)
+                    continue
+                sizes.setdefault(shape, []).append((len(m), steps))
+                ctx.maximum("budget_fraction", round(steps / (BASE + SLOPE * len(m)), 4), {"decoder": "inquiry.vpd%02x" % page, "len": len(m), "steps": steps})
+        for shape, res in sizes.items():
+            if len(res) != 2:
+                continue
+            (l1, s1), (l2, s2) = res
+            r1, r2 = s1 / max(1, l1), s2 / max(1, l2)
+            ctx.count("scaling_measurements")
+            if r2 > 2.5 * r1 + 5:
+                ctx.fail("C11:inquiry.vpd%02x.superlinear_work" % page, "VPD page %02Xh (%s): %.1f steps/byte on %d bytes but %.1f steps/byte on %d bytes" % (page, shape, r1, l1, r2, l2),
+                         {"decoder": "inquiry.vpd%02x" % page, "shape": shape, "bytes": [l1, l2], "steps": [s1, s2]})
+
+
+def run_retention(shard, ctx, rng):
+    """'allocate without bound' over a stream of responses: after warming up, decoding N more *distinct* well-formed responses
+    and dropping the results may not leave memory behind in proportion to the data decoded"""
+    import gc
+
+    import pyscsi.pyscsi.scsi_sense as sense_mod
+
+    from vmon.spec import datain as D, sense as SR
+
+    N = shard["n"]
+    decoders = []
+    for name, f in D.FORMATS.items():
+        cls = f.lib_cls()
+        decoders.append((name, f, cls))
+    for name, f, cls in decoders + [("sense", None, None)]:
+        bufs = []
+        for i in range(N + 60):
+            if f is None:
+                descs = [SR.descriptor(k, rng) for k in rng.sample(SR.DESCRIPTOR_KINDS, 3)]
+                bufs.append((SR.build_with_descriptors(0x72, rng.randrange(16), rng.getrandbits(8), rng.getrandbits(8), descs), {}))
+            else:
+                v = f.gen(rng)
+                bufs.append((f.encode(v), f.decode_kwargs(v)))
+
+        def decode(b, kw):
+            try:
+                if f is None:
+                    str(sense_mod.SCSICheckCondition(bytearray(b)))
+                else:
+                    cls.unmarshall_datain(bytearray(b), **kw)
+            except Exception:  # noqa: BLE001
+                pass
+
+        for b, kw in bufs[:60]:
+            decode(b, kw)  # warm up: lazily built tables, interned constants
+        gc.collect()
+        tracemalloc.start()
+        base = tracemalloc.get_traced_memory()[0]
+        fed = 0
+        for b, kw in bufs[60:]:
+            decode(b, kw)
+            fed += len(b)
+        gc.collect()
+        kept = tracemalloc.get_traced_memory()[0] - base
+        tracemalloc.stop()
+        ctx.case(("retention", name), True, sample={"decoder": name, "responses": N, "bytes_decoded": fed, "bytes_retained": kept} if ctx.want_sample() else None)
+        ctx.count("retention_measurements")
+        ctx.maximum("retained_fraction", round(kept / max(1, fed), 4), {"decoder": name, "bytes_decoded": fed, "bytes_retained": kept})
+        if kept > 32768 + fed // 8:
+            ctx.fail("C11:%s.memory_retained_across_calls" % name, "%s: %d bytes stay allocated after decoding and dropping %d distinct responses (%d bytes of device data)" % (name, kept, N, fed),
+                     {"decoder": name, "responses": N, "bytes_decoded": fed, "bytes_retained": kept})
+
+
 def shrink(v, n):
     """copy of value tree v whose (innermost long) descriptor list is cut to n entries"""
     import copy
@@ -264,6 +382,33 @@ def run_sense(shard, ctx, sm, rng):
     for klass, m in garbage(rng, shard["small"]):
         if len(m):
             go(m, klass)
+    # descriptor format with real descriptors: many side by side, and forwarded sense data nested as deep as 252 bytes allow
+    from vmon.spec import sense as SR
+
+    for depth in range(1, 21):
+        for rc in (0x72, 0x73):
+            inner = SR.build(0x70, 0, 5, 0x24, 0, 18) if depth % 2 else SR.build_with_descriptors(0x72, 3, 0x11, 0, [])
+            while True:
+                for _ in range(depth):
+                    nxt = SR.build_with_descriptors(rc, 2, 0x04, 0x01, [SR.descriptor("forwarded", rng, inner=inner)])
+                    if len(nxt) > 252:
+                        break
+                    inner = nxt
+                break
+            go(bytes(inner), "nested_forwarded_sense")
+            ctx.add("forwarded_nesting_bytes", len(inner))
+    for kind in SR.DESCRIPTOR_KINDS:
+        for count in (1, 2, 5, 20, 60):
+            descs = []
+            while len(descs) < count and sum(map(len, descs)) < 230:
+                d = SR.descriptor(kind, rng)
+                if sum(map(len, descs)) + len(d) > 244:
+                    break
+                descs.append(d)
+            full = SR.build_with_descriptors(0x72, 6, 0x29, 0x00, descs)
+            go(full, "descriptors_side_by_side")
+            for cut in range(8, len(full), 3):
+                go(full[:cut], "descriptors_truncated")
     for j in range(shard["n"]):
         n = rng.randint(1, 252)
         m = bytearray(rng.getrandbits(8) for _ in range(n))
@@ -277,6 +422,8 @@ def finalize(merged, tier):
     c = merged["counters"]
     if c.get("monitored_calls", 0) == 0:
         merged["inconclusive"].append("step monitor never ran a decoder")
+    if c.get("retention_measurements", 0) < 20 or len(merged["sets"].get("vpd_pages_driven", [])) < 256:
+        merged["inconclusive"].append("retention / all-VPD-pages phases incomplete (%s measurements, %s pages)" % (c.get("retention_measurements", 0), len(merged["sets"].get("vpd_pages_driven", []))))
     bf = merged["maxima"].get("budget_fraction")
     if bf and bf[0] > 0.5:
         merged["inconclusive"].append("a terminating call used %.0f%% of its budget: constant too tight to separate cases (%r)" % (100 * bf[0], bf[1]))
